@@ -68,6 +68,17 @@ func genC11(t *rapid.T) c11Case {
 		if k == "transfer" && rapid.IntRange(0, 4).Draw(t, "self") == 0 {
 			op.B = op.A // sender == recipient explicitly in the domain
 		}
+		if k == "redelegate" && rapid.Bool().Draw(t, "redelThenMove") {
+			// composite: B redelegates into Val2, then (while that redelegation is unmatured) approves A and A moves B's shares on
+			// the destination validator with transferFrom; B also tries a plain transfer
+			dst := op.Val2
+			c.Ops = append(c.Ops, c11Op{Kind: "delegate", A: op.B, Val: op.Val, Amt: op.Amt + 10},
+				c11Op{Kind: "redelegate", A: op.B, Val: op.Val, Val2: dst, Amt: op.Amt},
+				c11Op{Kind: "approve", A: op.B, B: op.A, Val: dst, Frac: 0},
+				c11Op{Kind: "transferfrom", A: op.A, B: op.B, C: op.C, Val: dst, Frac: op.Frac, Amt: op.Amt},
+				c11Op{Kind: "transfer", A: op.B, B: op.C, Val: dst, Frac: op.Frac, Amt: op.Amt})
+			continue
+		}
 		c.Ops = append(c.Ops, op)
 	}
 	return c
@@ -228,6 +239,10 @@ func runC11(c c11Case, rec *ev.Recorder) *Failure {
 			pendFrom, pendTo := e.pending(ctx, from, val), e.pending(ctx, to, val)
 			balFrom, balTo := e.fxBalance(ctx, from), e.fxBalance(ctx, to)
 			allowBefore := f.App.StakingKeeper.GetAllowance(ctx, val, from.Bytes(), e.actorAddr(spender).Bytes())
+			incoming, _ := f.App.StakingKeeper.HasReceivingRedelegation(ctx, from.Bytes(), val)
+			if incoming {
+				labels["transfer-attempt-during-incoming-redelegation:"+op.Kind] = true
+			}
 			var ok bool
 			if op.Kind == "transfer" {
 				ok, panicMsg = e.call(ctx, op.A, "transferShares", val.String(), to, shares)
@@ -236,6 +251,11 @@ func runC11(c c11Case, rec *ev.Recorder) *Failure {
 			}
 			if panicMsg != "" || !ok {
 				break
+			}
+			if incoming && from != to {
+				// the property's listed mechanism: shares that arrived by a redelegation which has not matured stay liable for the
+				// source validator's faults, so they cannot be moved to another account meanwhile - by their owner or by a spender
+				return failf("C11/transfer-during-incoming-redelegation", "%s: %s of %s shares succeeded although their owner %s has an unmatured redelegation into %s", desc, op.Kind, shares, from, val)
 			}
 			sd := sdkmath.LegacyNewDecFromBigInt(shares)
 			v1, _ := f.App.StakingKeeper.GetValidator(ctx, val)
